@@ -1,4 +1,5 @@
 import Xp.Proofs.C01PT
+import Xp.Proofs.C01Quiet
 /-
 C01 — composed resources are never leaked or duplicated, whatever fails mid-reconcile.
 
@@ -77,7 +78,36 @@ theorem invariant_every_history (h : List (Plan × Mode)) (hok : ∀ pm ∈ h, M
     · apply ih (fun x hx => hok x (List.mem_cons_of_mem _ hx)) _ _ s' hs'
       exact invariant_every_instant s hg pm.2 hm pm.1 _ (run_mem_reach sem pm.1 0 (reconcile pm.2) s)
 
+/-- **Quiescence** (function pipeline). Once the composed state matches the desired state —
+every desired resource has its object with the desired content under the XR's control and
+field manager, and spec.resourceRefs is exactly the sorted list of those objects — a
+fault-free reconcile, in whatever order it iterates its maps, succeeds and changes no
+object: the store it leaves is identical (references, objects, the XR's resourceVersion).
+(The P&T composer's quiescence is checked on the real code by the resourceVersion monitor
+only.) -/
+theorem quiescent (s : St) (names : List Named) (h : Settled s names) (ch : Choices) (hc : ChOK ch) :
+    run sem Plan.allOk 0 (reconcile (.fn (fun _ => .desired (names.map (·.d))) ch)) s = (s, some .success) :=
+  quiescent_fn h ch hc
+
 /-! ### non-vacuity: the hypotheses are met by non-trivial states and inputs -/
+
+def settledStore : St :=
+  { xrFin := true, xrRv := 3,
+    refs := [⟨"KA", "xr-abc"⟩, ⟨"KB", "xr-def"⟩],
+    objs := [⟨"KB", "xr-def", "b", .xr, true, false, 0, true⟩, ⟨"KA", "xr-abc", "a", .xr, false, false, 1, true⟩] }
+
+example : Settled settledStore [⟨⟨"a", "KA", 1, true⟩, "xr-abc", false⟩, ⟨⟨"b", "KB", 0, false⟩, "xr-def", false⟩] := by
+  refine ⟨⟨by decide, by decide, by decide, ?_, by intro o h; cases h⟩, rfl, by decide, by decide, by decide, ?_,
+    by simp [settledStore, refsOf, nkey, List.mergeSort, List.MergeSort.Internal.splitInTwo, refLt]⟩
+  · intro o1 h1 o2 h2 _ _ ha _
+    simp only [settledStore, List.mem_cons, List.mem_nil_iff, or_false] at h1 h2
+    rcases h1 with rfl | rfl <;> rcases h2 with rfl | rfl <;> first | rfl | (simp at ha)
+  · intro n hn
+    simp only [List.mem_cons, List.mem_nil_iff, or_false] at hn
+    rcases hn with rfl | rfl
+    · exact ⟨⟨"KA", "xr-abc", "a", .xr, false, false, 1, true⟩, by decide, rfl, rfl, rfl, rfl, rfl⟩
+    · exact ⟨⟨"KB", "xr-def", "b", .xr, true, false, 0, true⟩, by decide, rfl, rfl, rfl, rfl, rfl⟩
+
 
 /-- an XR with one live composed resource `xr-abc` for name "a", one terminating for "b" -/
 def exampleStore : St :=
